@@ -265,4 +265,21 @@ PROPS['C09'] = {
     'level_note': 'Trusted: Coq kernel, classtab extractor (validated), hand-written scheduling model (correspondence).',
 }
 
+PROPS['C11'] = {
+    'requires': ['cutout'], 'corr': corr_multi(corr_fn('C11', ['cutout'], 30, 400), corr_classtab()), 'search': 'C11',
+    'trusted_base': CLASSTAB_TRUSTED + [
+        'the ownership analysis (translator/classtab.py: mutation_of) is syntactic: parameters are borrowed until rebound '
+        'to a fresh value; aug-assign / subscript store / in-place method / out= on a borrowed name is flagged; aliasing is '
+        'tracked one level; which NumPy calls return views is a hand-written table',
+        'the array back end of the translator accepts a subscript store only on an array the function copied itself '
+        '(fail-closed), so cutout cannot be translated without its copy-before-write'],
+    'assumptions': ['NumPy / SciPy / OpenCV functions do not write into their inputs unless asked to (out=, in-place operators)'],
+    'level_text': 'Theorem over the table regenerated from all 552 functions of the package: no function writes in place '
+                  'into a value it received from its caller (ownership analysis), and the generated cutout exists only because '
+                  'the source copies before writing. The statement about the running program (every container, every layout, '
+                  'calls that raise) is explored: deep comparison before/after for every class x documented argument x '
+                  'C / strided view / Fortran / read-only arrays x list- and tuple-typed annotations.',
+    'level_note': 'Partial: the proof is about a syntactic over-approximation, third-party calls are trusted.',
+}
+
 NOT_CLAIMED = {}
